@@ -114,7 +114,8 @@ static struct {
     bool bad_unfilled;
     int first_hard, first_scripted_hard;
     bool seen_eintr, seen_eagain;
-    int partials, zeros, intrs, hards, ends, wides;
+    int partials, zeros, intrs, hards, ends;
+    int wides; /* scripted answers that offered >= 2^31 octets at once */
 } E;
 
 static void
@@ -288,7 +289,10 @@ answer(struct hd *d, const void *ptr, size_t asked)
             E.zeros++;
         else if (t < could)
             E.partials++;
-        if (t >= P31)
+        /* driver-side class: the script offered a single answer of 2^31
+         * octets or more (what reaches the library is that clamped to what it
+         * asked for; how much it asks for in one call is its own business) */
+        if (tk >= T_VAL && want >= P31)
             E.wides++;
         ans = (ssize_t)t;
     }
@@ -625,6 +629,9 @@ run_case(const struct casep *c, bool *nontrivial)
                         OPNAME[op], rc, (unsigned long long)S->moved, (unsigned long long)K->moved);
             return "huge-plumb-interrupted";
         }
+        /* a count beyond SSIZE_MAX may be served (it bounds nothing) or refused, as long as nothing is lost */
+        if (bounded && c->n > SSZ && S->moved == K->moved)
+            return "huge-atmost-wide-n-refused";
         mc_fail("C17/atmost-count", "%s returned %zd, which no driver answered", OPNAME[op], rc);
         return "violation";
     }
@@ -809,22 +816,27 @@ en_rec(struct en *e, int start, int remaining)
 struct geo { uint64_t off, used, size; };
 /* rewinding forms (sts_n_aux, sts_drain_aux) only with offset 0: a rewind of a
  * region that starts further in moves its octets, i.e. touches the block */
-static const struct geo GEO_REWIND[] = { { 0, ARENA_SIZE, ARENA_SIZE }, { 0, P32 + 8, P32 + 4096 } };
-static const struct geo GEO_PLAIN[] = { { 0, ARENA_SIZE, ARENA_SIZE }, { 4096, P32 + 4096 + 8, P33 } };
+static const struct geo GEO_REWIND[] = { { 0, P33, ARENA_SIZE }, { 0, P32 + 8, P32 + 4096 } };
+/* non-rewinding forms: both [offset, used) and the free octets [used, size) --
+ * the two readings of the designated region the oracle accepts -- are non-empty
+ * (success is demanded, so neither reading may be left without room) */
+static const struct geo GEO_PLAIN[] = { { 0, P33, ARENA_SIZE }, { 4096, P32 + 4096 + 8, P33 } };
 
 static void
 two_sided(int slots, int dmax)
 {
     static const uint64_t counted[] = { P32 - EINTR + 3, P32 + 5, P33 - EINTR + 1 };
     static const uint64_t drains[] = { P32 - EAGAIN + 7, P32 + 5, P33 + 3 };
-    static const uint64_t atmosts[] = { P32 - EINTR, P32 + 5, P33 };
+    /* ... and "no limit" spelled SIZE_MAX, SIZE_MAX - k with k below GEO_PLAIN[1]'s offset (offset + n wraps),
+     * SSIZE_MAX + 1 */
+    static const uint64_t atmosts[] = { P32 - EINTR, P32 + 5, P33, SSZ + 1, UINT64_MAX - 4095, UINT64_MAX };
     struct casep c;
     for (int d = 0; d <= dmax; ++d)
         for (int op = H_SOME_AUX; op < H__N; ++op) {
             const bool rewinds = (op == H_N_AUX || op == H_DRAIN_AUX);
             const struct geo *geo = rewinds ? GEO_REWIND : GEO_PLAIN;
             const uint64_t *ns = op_counted(op) ? counted : op_drain(op) ? drains : atmosts;
-            const int nn = (op == H_SOME_AUX || op == H_GB_SOME) ? 1 : 3;
+            const int nn = (op == H_SOME_AUX || op == H_GB_SOME) ? 1 : (op == H_ATMOST_AUX || op == H_GB_ATMOST) ? 6 : 3;
             for (int gi = 0; gi < 2; ++gi)
                 for (int ni = 0; ni < nn; ++ni)
                     for (int shorter = 0; shorter < (op_counted(op) ? 2 : 1); ++shorter) {
@@ -859,7 +871,9 @@ probe_case(int op, uint64_t size)
     memset(&c, 0, sizeof c);
     c.op = op;
     c.off = 0;
-    c.used = c.size = size;
+    c.size = size;
+    /* a fill mark with room on both sides of it (see GEO_PLAIN) */
+    c.used = size / 2;
     if (op_one(op)) {
         c.n = size;
     } else if (op_drain(op)) {
@@ -884,7 +898,7 @@ main(int argc, char **argv)
     probes(H__N);
     one_sided(th ? 3 : 2);
     two_sided(th ? 3 : 2, th ? 3 : 2);
-    mc_finish(true, th ? "chunk drivers; answers over {rest, asked-1, 0, EINTR, EAGAIN, EIO} + 20 counts around 2^31/2^32/2^33 (low 32 bits = errno codes, -1, 0, 1; sign bit); one driver: 4 operations x 11 counts N (2^31+3 .. SSIZE_MAX) x every script of 3 answers; two drivers: 4 aux forms + 4 forms through an offered scratch region x 2 geometries x 3 counts x every placement of <= 3 deviating answers over 3+3 call slots"
-                       : "chunk drivers; answers over {rest, asked-1, 0, EINTR, EAGAIN, EIO} + 20 counts around 2^31/2^32/2^33 (low 32 bits = errno codes, -1, 0, 1; sign bit); one driver: 4 operations x 11 counts N (2^31+3 .. SSIZE_MAX) x every script of 2 answers; two drivers: 4 aux forms + 4 forms through an offered scratch region x 2 geometries x 3 counts x every placement of <= 2 deviating answers over 2+2 call slots");
+    mc_finish(true, th ? "chunk drivers; answers over {rest, asked-1, 0, EINTR, EAGAIN, EIO} + 20 counts around 2^31/2^32/2^33 (low 32 bits = errno codes, -1, 0, 1; sign bit); one driver: 4 operations x 11 counts N (2^31+3 .. SSIZE_MAX) x every script of 3 answers; two drivers: 4 aux forms + 4 forms through an offered scratch region x 2 geometries x 3 counts (at-most forms: 6, up to SIZE_MAX) x every placement of <= 3 deviating answers over 3+3 call slots"
+                       : "chunk drivers; answers over {rest, asked-1, 0, EINTR, EAGAIN, EIO} + 20 counts around 2^31/2^32/2^33 (low 32 bits = errno codes, -1, 0, 1; sign bit); one driver: 4 operations x 11 counts N (2^31+3 .. SSIZE_MAX) x every script of 2 answers; two drivers: 4 aux forms + 4 forms through an offered scratch region x 2 geometries x 3 counts (at-most forms: 6, up to SIZE_MAX) x every placement of <= 2 deviating answers over 2+2 call slots");
     return 0;
 }
